@@ -86,3 +86,7 @@ def run(ctx):
     for cc in fm.calls_to('core::str::<impl str>::chars'):
       lits |= set(string_consts(fm, cc.args[0]))
     ctx.ob('R32.3', fm.n, 'alphabet literal is ABCDEFGHIJKLMNOPQRSTUVWXYZ', 'ABCDEFGHIJKLMNOPQRSTUVWXYZ' in lits, f'{lits}', where(fm, fm.line))
+
+
+# sensitivity pack (thorough tier): each seeded edit must be reported by the named rule instance
+MUTANTS = [{'name': 'commitment-strips-without-zero-test', 'file': 'crates/ordinals/src/rune.rs', 'old': 'while end > 0 && bytes[end - 1] == 0 {', 'new': 'while end > 1 {', 'expect': ('R32.3', 'commitment', 'end is decremented only under')}]
